@@ -964,9 +964,24 @@ def run_constiface(prog, ctx=None):
             if c >= 0 and not (c > 0 and len([x for x in r0 if x > 0]) <= 2):
                 continue
             ok = c in r1
-            if not ok and c > 0:
-                # a computed return may still deliver the value
-                ok = any(e.get("k") == "ret" and e.get("e") is not None and cval(e["e"]) is None for b, i, e in f.elements()) and not r1
+            if not ok:
+                # a computed return may still deliver the value: `ret = CODE; goto out; .. return ret` - the constant is
+                # assigned to a local that a return hands back
+                retvars = set()
+                for b, i, e in f.elements():
+                    if e.get("k") == "ret" and e.get("e") is not None and cval(e["e"]) is None:
+                        for m in walk(e["e"]):
+                            if m.get("k") == "ref" and "id" in m["d"]:
+                                retvars.add(m["d"]["id"])
+                for b, i, m in f.walk_all():
+                    if m.get("k") == "bin" and m.get("op") == "=" and cval(m["b"]) == c:
+                        l = strip(m["a"], lvalue_to_rvalue=False)
+                        if l.get("k") == "ref" and l["d"].get("id") in retvars:
+                            ok = True
+                    elif m.get("k") == "decl":
+                        for v in m["vars"]:
+                            if v["id"] in retvars and v.get("init") is not None and cval(v["init"]) == c:
+                                ok = True
             res.ob("%s:returns %d" % (k.split(":", 1)[1], c), ok, f, f.line,
                    "" if ok else "%s no longer returns %d; it returns %s now: callers that tell this answer apart get another one (a refusal reported as success, a result code the caller acts on)" % (
                        f.qn, c, sorted(r1)))
